@@ -1,6 +1,7 @@
 import Originium.Model.DiskProgMain
 import Originium.Model.DBTie
 import Originium.Model.WalTie
+import Originium.Model.TxnTie
 /-! # C04 — after a crash every transaction is visible completely or not at all (process-crash model)
 
 In an accepted trace a transaction reaches the disk by exactly one event `commit id b` carrying its
@@ -95,6 +96,20 @@ theorem C04_code_one_write {ε β : Type} (enc : ε → List β) (len8 : Nat →
 example : GenWal.write (fun (e : Nat) => [e, e]) (fun n => [100 + n]) false false (fun _ => false) false false [1, 2] [] =
     (true, [("w.mu.Lock", []), ("seek to the end", []), ("write", [102, 1, 1, 102, 2, 2]), ("fsync", [])]) := by decide
 
+/-- the Go code itself (the statements of `Txn.Commit` that build the batch, translated on every run): the batch handed to
+    `rawset` — one `memtable.set`, one `WAL.Write` — has exactly one entry for every pending write of the transaction, none
+    left out and none added, all of them at the one commit timestamp -/
+theorem C04_code_whole_batch {π : Type} (pkey : π → GenTxn.Key) (pval : π → List UInt8) (ptomb : π → Bool)
+    (pw : List (GenTxn.Key × π)) (ts : Nat) :
+    (GenTxn.commitBatch pkey pval ptomb pw ts).length = pw.length ∧
+    (∀ kv ∈ pw, ((pkey kv.2, ts), pval kv.2, ptomb kv.2, ts) ∈ GenTxn.commitBatch pkey pval ptomb pw ts) ∧
+    (∀ e ∈ GenTxn.commitBatch pkey pval ptomb pw ts, e.1.2 = ts ∧ e.2.2.2 = ts ∧
+        ∃ kv ∈ pw, e = ((pkey kv.2, ts), pval kv.2, ptomb kv.2, ts)) := by
+  rw [TxnTie.commitBatch_eq]
+  refine ⟨by simp, fun kv h => List.mem_map.mpr ⟨kv, h, rfl⟩, fun e he => ?_⟩
+  obtain ⟨kv, hkv, rfl⟩ := List.mem_map.mp he
+  exact ⟨rfl, rfl, kv, hkv, rfl⟩
+
 #print axioms C04_all_or_nothing
 #print axioms C04_written_visible
 #print axioms C04_split_commit_witness
@@ -102,4 +117,5 @@ example : GenWal.write (fun (e : Nat) => [e, e]) (fun n => [100 + n]) false fals
 #print axioms C04_program_one_write
 #print axioms C04_code_batch_then_rotation
 #print axioms C04_code_one_write
+#print axioms C04_code_whole_batch
 end Props
